@@ -316,6 +316,8 @@ def run(chk, F):
         c06_children.run(chk, c, F)
     run_r5(chk, F)
     run_r6(chk, F)
+    from rules import c06_lookup
+    c06_lookup.run(chk, c)
     chk.assumptions += [
         "decides three structural panic sources in dora-parser; value-dependent unwrap/index sites in dora-frontend "
         "and termination of the type checker are not decided",
